@@ -24,14 +24,14 @@ func init() {
 	register(&Check{ID: "C20", Level: "model_checking", Run: runC20, Replay: replayC20})
 }
 
-var c20KindNames = []string{"Id", "Dot", "Add3", "Call", "Clone", "RenderWithSharedFile", "Tag", "Line", "Case", "Block", "AddSpread", "QualSameName", "DoAppendAndCloneInside", "LitFuncCounting"}
+var c20KindNames = []string{"Id", "Dot", "Add3", "Call", "Clone", "RenderWithSharedFile", "Tag", "Line", "Case", "Block", "AddSpread", "QualSameName", "DoAppendAndCloneInside", "LitFuncCounting", "GroupAddThenExtendResult"}
 
 // Two alphabets (operation kinds on any pool member) with their pool sizes: the general one, and
 // one of clause-like tokens whose rendering depends on their neighbours (Line, Case, Block).
 // The third alphabet: items spread from ONE caller-owned list (with a nil in the middle) that every
 // such operation of the history reuses, and qualified identifiers whose paths differ per statement
 // but share the package name.
-var c20Alphabets = [][]int{{0, 1, 2, 3, 4, 5, 6}, {0, 1, 7, 8, 9, 4}, {0, 3, 10, 11, 4, 12, 13}}
+var c20Alphabets = [][]int{{0, 1, 2, 3, 4, 5, 6}, {0, 1, 7, 8, 9, 4}, {0, 3, 10, 11, 4, 12, 13, 14}}
 var c20Pools = []int{4, 3, 3}
 
 // the alphabet in force (searches run one after another)
@@ -222,6 +222,10 @@ func c20Build(hist []int) (w *c20World, ok bool) {
 			w.model = append(w.model, &c20Model{parent: si, snap: w.accept(si), snapFlat: w.flat(si)})
 		case 5:
 			c20WithFile(s, w.shared)
+		case 14:
+			// the statement is added to a group and what Add returns is extended: the statement
+			// itself is not
+			jen.CustomFunc(jen.Options{}, func(g *jen.Group) { g.Add(s).Dot("Lock").Call() })
 		case 12:
 			// a token appended inside a Do callback, and a Clone of the callback's statement taken there
 			if len(w.stmts) >= c20Pool {
@@ -383,6 +387,7 @@ func runC20(r *ev.Recorder) {
 				d = depth - 1 // the second root is there for the interaction of emptiness with renders
 			}
 			res := statespace.Search(statespace.System{
+				Tick:      r.Tick,
 				NumOps:    c20Pool * len(c20Alpha),
 				MaxDepth:  d,
 				MaxStates: 40_000_000,
